@@ -101,8 +101,14 @@ def run_update_projects(rep, tier, seed, focus, model_ok=True, effort=1, legacy_
             except Exception as ex:
                 rep.notes.append("generator could not render %s: %r" % (spec["vp"], ex))
                 continue
-            if prj.cfg_error(impl):
+            cerr = prj.cfg_error(impl)
+            if cerr:
                 rep.count("config-rejected")
+                if focus == "stale":
+                    # generated projects are valid by construction (0 rejections in 480 projects on the pinned tree)
+                    rep.violation("the configuration of a project in which every configured file and pattern exists is rejected",
+                                  input=dict(version_pattern=spec["vp"], current_version=spec["old"], files={f.path: f.patterns for f in spec["files"]},
+                                             entries=sorted(set(f.group or f.path for f in spec["files"])), error=str(cerr)[:300]), **{"class": "unexpected-failure"})
                 continue
             before = prj.snapshot()
             nd = spec["date"] + dt.timedelta(days=r.choice([1, 40, 400]))
